@@ -288,7 +288,7 @@ def c01(tier, repo=None):
         scs, run = engine.gen_chains("ChainGen_q.cfg" if tier == "quick" else "ChainGen_t.cfg")
         log("  family chain: %d chain scenarios (stage sequences x branch policies, TLC %d states) with their lowering" % (len(scs), run.distinct))
         return scs + nest(scs, rnd, 0.5)       # half of them once more with a stage member turned into a graph (AppendGraph / Parallel.AddGraph / ChainBranch.AddGraph)
-    return run_engine_check("C01", tier, model_cfgs=models, families=fams, decorate_kw={"echo_frac": 0.12, "rmax_frac": 0.15, "anyout_frac": 0.1, "all_paradigms": True, "pipe_frac": 0.4, "dopt_frac": 0.3}, nontrivial=nontrivial,
+    return run_engine_check("C01", tier, model_cfgs=models, families=fams, decorate_kw={"echo_frac": 0.12, "rmax_frac": 0.15, "anyout_frac": 0.1, "all_paradigms": True, "pipe_frac": 0.4, "dopt_frac": 0.3, "ccb_frac": 0.5}, nontrivial=nontrivial,
                             nest_frac=0.08, repo=repo, extra_scenarios=chains,
                             assumptions=["an edge and a branch of one source targeting the same node: any-predecessor mode only (families p2d / p3d); in all-predecessor mode the pair is outside the universe"])
 
@@ -437,6 +437,13 @@ def c13(tier, repo=None):
                                 delay[n] = rnd.randrange(4)
                             out.append({"mode": mode, "nodes": list(nodes), "edges": copy.deepcopy(edges), "branches": [], "max": 0, "before": [], "after": [],
                                         "rerun": nodes[:2], "state": True, "fail": [{"n": failing, "kind": kind}], "delay": delay, "fam": "par-rerun-fail"})
+        # an error item in the middle of a node's output stream that reaches a fan-in through a converted (field-mapped) stream
+        for mode in ("wf", "dag", "pregel"):
+            for bad in ("a", "b"):
+                for rep in range(3 if tier == "quick" else 12):
+                    out.append({"mode": mode, "nodes": ["a", "b", "j"], "edges": [["start", "a", "cd"], ["start", "b", "cd"], ["a", "j", "cd"], ["b", "j", "cd"], ["j", "end", "cd"]],
+                                "branches": [], "max": 0, "before": [], "after": [], "rerun": [], "state": False, "fail": [{"n": bad, "kind": "serr"}],
+                                "delay": {"a": rnd.randrange(3), "b": rnd.randrange(3), "j": 0}, "fam": "serr-fanin", "nofv": True})
         return out
     if tier == "quick":
         fams = [("fp3", consts("pregel", 3, 3, 1, 1, fail=True, maxchoice=(3,)), {}),
